@@ -31,7 +31,7 @@ def build_template(tpl, variant):
     elif variant == 1:
         start = "/".join("{%s}" % n for n in date) + "/" + ("x" + grp("", tfs, "") if tfs else "x")
     elif variant == 2:
-        start = "{%s}/{sat}/v1.0_" % date[0] + grp("", date + tfs, ".")
+        start = "{%s}/{sat}/{sat}.v1.0_" % date[0] + grp("", date + tfs, ".")
     else:
         start = "{sat}_" + grp("", date, "-") + ("T" + grp("", tfs, ":") if tfs else "")
     if tpl["ek"] == "full":
